@@ -13,11 +13,11 @@
 (*    the error channel (Write, LogFile) or as error result of the call.    *)
 (* Scope as FlwF.tla: synchronous write modes and cleanup, symlink.         *)
 (***************************************************************************)
-EXTENDS FlwF, Json, IOUtils
+EXTENDS FlwCrash, Json, IOUtils
 
 Rec == ndJsonDeserialize(IOEnv.TRACE)
 VARIABLES l, on
-tvars == <<fvars, l, on>>
+tvars == <<cvars, l, on>>
 E == Rec[l]
 Ok(e) == e.ret = "ok"
 
@@ -57,8 +57,14 @@ BeginReset == /\ dir' = <<>> /\ files' = <<>> /\ w' = NoWriter /\ clk' = E.t /\ 
          /\ forced' = {} /\ extgone' = {} /\ exts' = 0 /\ moved' = <<>> /\ olddirs' = <<>> /\ sws' = 0
          /\ needReopen' = FALSE /\ hist' = <<>>
          /\ nfx' = 0 /\ lostw' = {} /\ rep' = <<>> /\ lastfx' = <<>> /\ recov' = 0 /\ plan' = plan
-         /\ lnk' = [NoLink EXCEPT !.on = E.norm.link]
-StutterF == UNCHANGED fvars
+         /\ lnk' = [NoLink EXCEPT !.on = E.norm.link] /\ crashed' = FALSE
+StutterF == UNCHANGED cvars
+K(next) == next /\ UNCHANGED crashed
+\* the kill (C11): the call that was running and the effect it was killed in front of are part of the event
+Kill == LET e == E IN
+        IF e.inflight.op = "Log" THEN CrashInWrite(e.inflight.len, e.j)
+        ELSE IF e.inflight.op = "Trigger" /\ w.st = "act" /\ cfg.rot THEN CrashInTrigger(e.j)
+        ELSE CrashOther
 
 TraceInit == /\ l = 1 /\ on = FALSE /\ dir = <<>> /\ files = <<>> /\ w = NoWriter /\ clk = 0
              /\ cfg = [naming |-> "Num", rot |-> FALSE, gran |-> 1, clean |-> FALSE, k |-> 0, m |-> 0, age |-> "-",
@@ -67,7 +73,7 @@ TraceInit == /\ l = 1 /\ on = FALSE /\ dir = <<>> /\ files = <<>> /\ w = NoWrite
              /\ forced = {} /\ extgone = {} /\ exts = 0 /\ moved = <<>> /\ olddirs = <<>> /\ sws = 0
              /\ needReopen = FALSE /\ hist = <<>>
              /\ nfx = 0 /\ lostw = {} /\ rep = <<>> /\ lastfx = <<>> /\ recov = 0 /\ plan = [from |-> 0, burst |-> 1]
-             /\ lnk = NoLink
+             /\ lnk = NoLink /\ crashed = FALSE
 
 TraceNext ==
     /\ l <= Len(Rec) /\ l' = l + 1
@@ -75,17 +81,18 @@ TraceNext ==
        /\ on' = IF e.ev = "Begin" THEN e.conf ELSE on
        /\ IF e.ev = "Begin" THEN BeginReset
           ELSE IF ~on THEN StutterF
-          ELSE CASE e.ev = "Start" /\ Ok(e) -> StartF(e.append) /\ Match
-                 [] e.ev = "Log" /\ e.ret # "noop" -> WriteFL(e.len, e.fxf) /\ Match /\ LinkMatch /\ SameFx /\ Reported
+          ELSE CASE e.ev = "Start" /\ Ok(e) -> K(StartF(e.append)) /\ Match
+                 [] e.ev = "Crashed" -> Kill /\ Match /\ LinkMatch
+                 [] e.ev = "Log" /\ e.ret # "noop" -> K(WriteFL(e.len, e.fxf)) /\ Match /\ LinkMatch /\ SameFx /\ Reported
                  [] e.ev = "Trigger" /\ e.ret # "noop" ->
-                        \/ (TriggerFL(e.fxf) /\ Match /\ LinkMatch /\ SameFx /\ Reported)
-                        \/ (TriggerNoopF /\ Match /\ SameFx)
+                        \/ (K(TriggerFL(e.fxf)) /\ Match /\ LinkMatch /\ SameFx /\ Reported)
+                        \/ (K(TriggerNoopF) /\ Match /\ SameFx)
                  [] e.ev = "Flush" /\ e.ret # "noop" ->
-                        \/ (FlushFL(e.fxf) /\ Match /\ SameFx)
+                        \/ (K(FlushFL(e.fxf)) /\ Match /\ SameFx)
                         \/ (w.st # "act" /\ StutterF /\ Len(e.fx) = 0)
                  \* shutdown and drop flush whatever happens at their flush points
-                 [] e.ev = "Stop" /\ e.ret # "noop" -> StopF /\ Match
-                 [] e.ev = "Adv" -> AdvanceF(e.dt) /\ Match
+                 [] e.ev = "Stop" /\ e.ret # "noop" -> K(StopF) /\ Match
+                 [] e.ev = "Adv" -> K(AdvanceF(e.dt)) /\ Match
                  [] OTHER -> StutterF /\ Match
     /\ IF l = Len(Rec) THEN PrintT(<<"CONSUMED", l>>) ELSE TRUE
 
